@@ -137,6 +137,9 @@ type end struct {
 	injectErr func()
 	closeStub func()
 	closeWrap func() error // Close of the wrapper itself
+	remote    func() net.Addr    // RemoteAddr as the wrapper reports it
+	moveStub  func(name string)  // the wrapped connection's remote address changes
+	stubRemote func() net.Addr
 }
 
 type opResult struct {
@@ -170,10 +173,10 @@ func run(env *simrt.Env, sci interface{}) {
 			p := p
 			if sc.Flavor == "connctx-msg" {
 				w := connctx.New(p)
-				ends[i] = end{read: w.ReadContext, write: w.WriteContext, closeWrap: w.Close}
+				ends[i] = end{read: w.ReadContext, write: w.WriteContext, closeWrap: w.Close, remote: w.RemoteAddr, moveStub: p.MoveRemote, stubRemote: p.RemoteAddr}
 			} else {
 				w := netctx.NewConn(p)
-				ends[i] = end{read: w.ReadContext, write: w.WriteContext, closeWrap: w.Close}
+				ends[i] = end{read: w.ReadContext, write: w.WriteContext, closeWrap: w.Close, remote: w.RemoteAddr, moveStub: p.MoveRemote, stubRemote: p.RemoteAddr}
 			}
 			ends[i].deadlines = p.Deadlines
 			ends[i].setUserReadDL = func(t time.Time) { _ = p.SetReadDeadline(t) }
@@ -199,10 +202,10 @@ func run(env *simrt.Env, sci interface{}) {
 			s := s
 			if sc.Flavor == "connctx-stream" {
 				w := connctx.New(s)
-				ends[i] = end{read: w.ReadContext, write: w.WriteContext, closeWrap: w.Close}
+				ends[i] = end{read: w.ReadContext, write: w.WriteContext, closeWrap: w.Close, remote: w.RemoteAddr, moveStub: s.MoveRemote, stubRemote: s.RemoteAddr}
 			} else {
 				w := netctx.NewConn(s)
-				ends[i] = end{read: w.ReadContext, write: w.WriteContext, closeWrap: w.Close}
+				ends[i] = end{read: w.ReadContext, write: w.WriteContext, closeWrap: w.Close, remote: w.RemoteAddr, moveStub: s.MoveRemote, stubRemote: s.RemoteAddr}
 			}
 			ends[i].deadlines = s.Deadlines
 			ends[i].setUserReadDL = func(t time.Time) { _ = s.SetReadDeadline(t) }
@@ -596,6 +599,21 @@ func run(env *simrt.Env, sci interface{}) {
 			env.Fail("C17/write-misreported", "end %d: all writes returned and reported %d bytes, but %d bytes were moved into the pipe (a write that reports zero bytes must have transferred none)", e, len(repW), len(moved))
 			return
 		}
+	}
+	// the address getters are the wrapped connection's, also after its peer has moved
+	for e := 0; e < 2; e++ {
+		if ends[e].remote == nil {
+			continue
+		}
+		for round := 0; round < 2; round++ {
+			got, want := ends[e].remote(), ends[e].stubRemote()
+			if got == nil || want == nil || got.String() != want.String() {
+				env.Fail("C17/address-not-passed-through", "end %d: RemoteAddr() of the wrapper is %v, the wrapped connection reports %v", e, got, want)
+				return
+			}
+			ends[e].moveStub(fmt.Sprintf("moved-%d", e))
+		}
+		env.Probe("remote-address-after-move")
 	}
 	// release whatever is still waiting with a live context, then everything must return
 	ends[0].closeStub()
